@@ -37,6 +37,7 @@ fn judge(o: &mut Outcome, l: &Lowered, ops: &[COp], fin: usize, script: &Script,
     let tag = match script {
         Script::FailAtCall { kind: 6, .. } | Script::FailAtByte { kind: 6, .. } => "write_zero",
         Script::FailAtCall { .. } => "fail_at_call",
+        Script::FailOnceAtCall { .. } => "fail_once_at_call",
         Script::FailAtByte { .. } => "fail_at_byte",
         Script::Schedule { terminal: Some(_), .. } => "schedule_with_terminal",
         Script::Schedule { .. } => "benign_schedule",
@@ -78,6 +79,15 @@ fn judge(o: &mut Outcome, l: &Lowered, ops: &[COp], fin: usize, script: &Script,
                 return false;
             }
         }
+    }
+    // no write call may reach the sink once it has reported a hard failure (not even within the same finish)
+    if s.writes_after_failure > 0 {
+        o.fail(
+            "silent_after",
+            format!("silent_after.write_after_sink_failure.{}", tag),
+            format!("{} write call(s) reached the sink after it had returned a hard error under {:?}", s.writes_after_failure, script),
+        );
+        return false;
     }
     // silent_after: later calls fail and reach the sink no more
     for (i, res) in run.results.iter().enumerate().skip(fin + 1) {
@@ -141,6 +151,10 @@ pub fn eval(c: &FaultCase) -> Outcome {
                     break 'outer;
                 }
             }
+            n_scripts += 1;
+            if !run_one(&mut o, Script::FailOnceAtCall { call, kind: (call % 6) as u8 }, nsamples >= 2 && call > 0) {
+                break 'outer;
+            }
         }
         if o.violations.is_empty() {
             for offset in 0..n {
@@ -157,6 +171,11 @@ pub fn eval(c: &FaultCase) -> Outcome {
             let offset = (k * 7919 + 13) % n.max(1);
             n_scripts += 1;
             if !run_one(&mut o, Script::FailAtByte { offset, kind: (k % 7) as u8 }, nsamples >= 2 && offset > 0) {
+                break;
+            }
+            let call = (k * 31 + 1) % r.n_calls.max(1);
+            n_scripts += 1;
+            if !run_one(&mut o, Script::FailOnceAtCall { call, kind: (k % 6) as u8 }, nsamples >= 2 && call > 0) {
                 break;
             }
         }
@@ -232,7 +251,7 @@ pub fn def() -> PropertyDef {
         id: "C13",
         level: "fault_enumeration",
         rule: "for each generated small history (video-only, A/V, reordered, fast start on/off, metadata) a fault-free reference run records its K sink \
-               write calls and N bytes; then EVERY write-call index x 7 failure modes (6 ErrorKinds + Ok(0)) and EVERY byte offset in 0..N is injected, \
+               write calls and N bytes; then EVERY write-call index x 8 failure modes (6 sticky ErrorKinds, Ok(0), one transient hard error) and EVERY byte offset in 0..N is injected, \
                plus generated schedules of short writes and finitely many Interrupted results with/without a terminal failure; a second sub-check samples \
                fault points on larger histories. Clauses: no panic, finish errs iff a write ultimately failed, accepted bytes are a prefix of the \
                reference (equal when Ok, bytes_written equal), no sink write and no successful call after the finish. Non-trivial = fault strictly inside \
